@@ -357,6 +357,15 @@ retry:
                 clean_up_tuple_list_nvc();
                 goto retry; // NOLINT
             }
+            if (!right_to_left && !tuple_list.empty() &&
+                full_key <= std::get<0>(tuple_list.back())) {
+                /**
+                 * This key was already returned from a node on the left. It was removed there
+                 * and, after that node had been emptied and unlinked, inserted again into this
+                 * node. Keep the result strictly ascending.
+                 */
+                continue;
+            }
             auto in_range = [&full_key, &tuple_list, &vp, &node_version_vec,
                              &v_at_fb, &node_version_ptr, &tuple_pushed_num,
                              max_size]() {
